@@ -127,6 +127,7 @@ def audit(data, obj):
 class C02(AoefProp):
     ID = "C02"
     REFERENCES_ONLY = True
+    IMPORTS = AoefProp.IMPORTS + ["Aoef.TagIds"]
     RULE = (
         "random object graphs for each of the 8 collection types (30 per type quick, 300 thorough; sizes 0.4-4x): shared sub-objects, "
         "users only as note author / badge owner / recording owner, tags only in predictions / project / evaluation tag lists, "
@@ -147,7 +148,11 @@ class C02(AoefProp):
             return "false"
         if not o["cycles"] or o["cycles"][0].get("save") != "ok":
             return "false"
-        return f"({self.save_agrees(case, o, 'skel_eqb')}) && closedb {self.doc_expr(o)}"
+        # the real ids of the tags list, in order, against the model's dense ids
+        real_ids = [t["id"] for t in (o["doc_json"]["data"].get("tags") or [])]
+        ids_ok = "list_eqb Nat.eqb (tag_ids (get_table cTag (fst " + self.doc_expr(o) + "))) [" + "; ".join(f"{int(i)}%nat" for i in real_ids) + "]" \
+            if all(isinstance(i, int) and i >= 0 for i in real_ids) else "false"
+        return f"({self.save_agrees(case, o, 'skel_eqb')}) && closedb {self.doc_expr(o)} && {ids_ok}"
 
     def oracle(self, case, o):
         fails = []  # an inventory difference breaks the correspondence (agree = false); it is not by itself a failing input
